@@ -288,7 +288,7 @@ func c20Concurrent(c *core.Ctx) {
 	root.Push("fixed-leaf", keepParen, keepNot)
 	rounds := 3000
 	if c.Tier == "thorough" {
-		rounds = 20000
+		rounds = 6000
 	}
 	mode := r.Intn(7)
 	child := stackage.Or().SetMutex().Push("child-leaf")
@@ -448,7 +448,7 @@ wait:
 func c20Run(c *core.Ctx, idx int) {
 	_, exh, _ := c20Tier(c.Tier)
 	r := c.Rng
-	if idx >= exh && idx%2003 == 1001 {
+	if every := map[string]int{"thorough": 8011}[c.Tier]; idx >= exh && ((every == 0 && idx%2003 == 1001) || (every > 0 && idx%every == 1001)) {
 		c20Concurrent(c)
 		return
 	}
